@@ -27,6 +27,8 @@ struct World {
     sinks: Vec<SinkState>,
     next_val: u32,
     late: bool, // sources may defer their greeting (profile L)
+    op_prop: Option<&'static str>, // the operator-specific property that also covers Pull routing
+    cross: bool, // another member may act from inside a member's handler (members coupled behind the scenes)
 }
 struct SrcState { st: SrcSt, sink: Option<Sink>, subs: u32, err: Option<String>, name: String, emitted: u32 }
 struct SinkState { st: SinkSt, tb: Option<Tb>, data: Vec<u32>, err: Option<String>, name: String }
@@ -92,19 +94,33 @@ fn src_event(w: &W, j: usize, allow_nothing: bool) -> bool {
         }
     }
 }
-fn src_burst(w: &W, j: usize) { while src_event(w, j, true) {} }
+fn src_burst(w: &W, j: usize) {
+    loop {
+        let (cross, n) = { let g = w.lock().unwrap(); (g.cross, g.srcs.len()) };
+        if cross && n > 1 {
+            // pick who acts: 0 = nobody, k+1 = source k
+            let c = choose(w, n + 1);
+            if c == 0 { break; }
+            if !src_event(w, c - 1, false) { break; }
+        } else if !src_event(w, j, true) { break; }
+    }
+}
 fn src_greet(w: &W, j: usize) {
     let sink = { let mut g = w.lock().unwrap(); g.srcs[j].st = SrcSt::Live; g.srcs[j].sink.clone().unwrap() };
     let tb: Tb = Arc::new({
         let w = w.clone();
         move |m: Message<never::Never, u32>| {
-            let (st, name) = { let g = w.lock().unwrap(); (g.srcs[j].st, g.srcs[j].name.clone()) };
+            let (st, name, out) = { let g = w.lock().unwrap(); let out = if g.sinks.len() == 1 { if g.sinks[0].st == SinkSt::Live || g.sinks[0].st == SinkSt::NotGreeted { " [output live]" } else { " [output over]" } } else { "" }; (g.srcs[j].st, g.srcs[j].name.clone(), out) };
             log(&w, format!("{} <- {}", name, kind(&m)));
             match m {
                 Message::Pull => match st {
                     SrcSt::Live => src_burst(&w, j),
-                    SrcSt::Ended | SrcSt::Errored => violate(&w, "C04", format!("Pull sent to {} after it ended by itself", name)),
-                    SrcSt::Terminated => violate(&w, "C04", format!("Pull sent to {} after it was terminated", name)),
+                    SrcSt::Ended | SrcSt::Errored => {
+                        violate(&w, "C04", format!("Pull sent to {} after it ended by itself{}", name, out));
+                        let op_prop = w.lock().unwrap().op_prop;
+                        if let (Some(p), " [output live]") = (op_prop, out) { violate(&w, p, format!("Pull sent to {} after it ended by itself{}", name, out)); }
+                    }
+                    SrcSt::Terminated => violate(&w, "C04", format!("Pull sent to {} after it was terminated{}", name, out)),
                     _ => violate(&w, "C04", format!("Pull sent to {} before it greeted", name)),
                 },
                 Message::Terminate | Message::Error(_) => match st {
@@ -231,12 +247,12 @@ fn build(op: &str, w: &W) -> Source<u32> {
         "take1" => callbag::take(1)(mk("a")),
         "take2" => callbag::take(2)(mk("a")),
         "skip1" => callbag::skip(1)(mk("a")),
-        "merge2" | "merge2L" => callbag::merge!(mk("a"), mk("b")),
+        "merge2" | "merge2L" | "merge2X" => callbag::merge!(mk("a"), mk("b")),
         "merge3" => callbag::merge!(mk("a"), mk("b"), mk("c")),
         "concat0" => callbag::concat(Vec::<Source<u32>>::new().into_boxed_slice()),
         "concat2" => callbag::concat!(mk("a"), mk("b")),
         "concat3" => callbag::concat!(mk("a"), mk("b"), mk("c")),
-        "combine2" => callbag::map(|(x, y): (u32, u32)| x * 1000 + y)(callbag::combine!(mk("a"), mk("b"))),
+        "combine2" | "combine2X" => callbag::map(|(x, y): (u32, u32)| x * 1000 + y)(callbag::combine!(mk("a"), mk("b"))),
         "from_iter" => callbag::from_iter([1u32, 2, 3]),
         "flatten" => {
             // the outer is a puppet whose data are fresh puppet inner sources
@@ -249,7 +265,7 @@ fn build(op: &str, w: &W) -> Source<u32> {
 }
 struct Outcome { violations: Vec<(String, String)>, log: Vec<String>, exhausted: Option<usize>, panicked: Option<String> }
 fn run(op: &str, tape: &[u8]) -> Outcome {
-    let w: W = Arc::new(Mutex::new(World { tape: tape.to_vec(), late: op.ends_with('L'), ..Default::default() }));
+    let w: W = Arc::new(Mutex::new(World { tape: tape.to_vec(), late: op.ends_with('L'), cross: op.ends_with('X'), op_prop: if op.starts_with("merge") { Some("C08") } else if op.starts_with("combine") { Some("C10") } else if op.starts_with("concat") { Some("C09") } else if op.starts_with("flatten") { Some("C11") } else { None }, ..Default::default() }));
     let r = catch_unwind(AssertUnwindSafe(|| {
         if op == "share2" || op == "share3" {
             let j = new_source(&w, "a");
@@ -299,16 +315,24 @@ fn run(op: &str, tape: &[u8]) -> Outcome {
     if let Some(p) = &panicked { g.violations.push(("C17".into(), format!("panic: {}", p))); }
     Outcome { violations: g.violations.clone(), log: g.log.clone(), exhausted: g.exhausted_opts, panicked }
 }
-fn search(op: &str, want: Option<&str>, pat: Option<&str>, max_len: usize, budget: &mut u64, prefix: &mut Vec<u8>, best: &mut Option<(Vec<u8>, Outcome)>) {
+fn norm(s: &str) -> String {
+    // compare violation texts up to peer names and numbers
+    let cleaned: String = s.chars().map(|c| if c.is_ascii_digit() { '#' } else if c.is_alphanumeric() || c == '#' { c } else { ' ' }).collect();
+    cleaned.split_whitespace().map(|w| {
+        let is_name = matches!(w, "a" | "b" | "c" | "outer" | "sink" | "sinkA" | "sinkB" | "sinkC") || w.starts_with("inner");
+        if is_name { "_" } else { w }
+    }).collect::<Vec<_>>().join(" ")
+}
+fn search(op: &str, want: Option<&str>, pat: Option<&str>, excl: &[String], max_len: usize, budget: &mut u64, prefix: &mut Vec<u8>, best: &mut Option<(Vec<u8>, Outcome)>) {
     if *budget == 0 || best.is_some() { return; }
     *budget -= 1;
     let o = run(op, prefix);
-    if o.violations.iter().any(|(p, wh)| want.map(|x| x == p).unwrap_or(true) && pat.map(|x| wh.contains(x)).unwrap_or(true)) { *best = Some((prefix.clone(), o)); return; }
+    if o.violations.iter().any(|(p, wh)| want.map(|x| x == p).unwrap_or(true) && pat.map(|x| wh.contains(x)).unwrap_or(true) && !excl.iter().any(|x| norm(wh).contains(&norm(x)))) { *best = Some((prefix.clone(), o)); return; }
     if let Some(n) = o.exhausted {
         if prefix.len() < max_len {
             for c in 0..n as u8 {
                 prefix.push(c);
-                search(op, want, pat, max_len, budget, prefix, best);
+                search(op, want, pat, excl, max_len, budget, prefix, best);
                 prefix.pop();
                 if best.is_some() { return; }
             }
@@ -330,13 +354,13 @@ fn main() {
         }
         Some("search") => {
             let op = &a[2];
-            let mut want: Option<String> = None; let mut pat: Option<String> = None; let mut len = 9usize; let mut budget: u64 = 3_000_000;
+            let mut want: Option<String> = None; let mut pat: Option<String> = None; let mut excl: Vec<String> = vec![]; let mut len = 9usize; let mut budget: u64 = 3_000_000;
             let mut i = 3;
-            while i + 1 < a.len() { match a[i].as_str() { "--property" => want = Some(a[i + 1].clone()), "--match" => pat = Some(a[i + 1].clone()), "--len" => len = a[i + 1].parse().unwrap(), "--budget" => budget = a[i + 1].parse().unwrap(), _ => {} } i += 2; }
+            while i + 1 < a.len() { match a[i].as_str() { "--property" => want = Some(a[i + 1].clone()), "--match" => pat = Some(a[i + 1].clone()), "--exclude" => excl.push(a[i + 1].clone()), "--len" => len = a[i + 1].parse().unwrap(), "--budget" => budget = a[i + 1].parse().unwrap(), _ => {} } i += 2; }
             let total = budget;
             let mut best = None;
             // iterative deepening: shortest failing tape first
-            for l in 1..=len { search(op, want.as_deref(), pat.as_deref(), l, &mut budget, &mut vec![], &mut best); if best.is_some() || budget == 0 { break; } }
+            for l in 1..=len { search(op, want.as_deref(), pat.as_deref(), &excl, l, &mut budget, &mut vec![], &mut best); if best.is_some() || budget == 0 { break; } }
             match best {
                 Some((t, o)) => { out(&t, &o, total - budget); std::process::exit(1); }
                 None => { println!("{}", serde_json::json!({"tape": null, "violations": [], "runs": total - budget, "max_len": len})); std::process::exit(0); }
